@@ -105,6 +105,9 @@ func TestCheck(t *testing.T) {
 	r.Require("seq_custom_updates", 50)
 	r.Require("seq_outdated_snapshot_queries", 20)
 	r.Require("seq_probe_queries", 300)
+	for _, k := range zeroKinds {
+		r.Require("seq_requery_of_cached_host_after_zero_rule_refresh_"+k, 40)
+	}
 	r.Require("hashprefix_result_cache_hits", 200)
 	r.Require("custom_filter_cache_hits", 200)
 	r.Require("hook_hits_total", 100)
@@ -381,7 +384,12 @@ func runSeqHistory(r *vkit.Run, s *srv, idx int) {
 	tl := label(ruleListIDs[h.rng.IntN(2)])
 	h.hot = append(h.hot, query{Host: "typed." + tl + ".test", QType: dns.TypeA}, query{Host: "typed." + tl + ".test", QType: dns.TypeAAAA})
 	steps := 80
+	sandwichAt := 10 + h.rng.IntN(60)
 	for st := 0; st < steps && !h.aborted; st++ {
+		if st == sandwichAt {
+			h.zeroRuleSandwich(zeroKinds[idx%len(zeroKinds)])
+			continue
+		}
 		switch w := h.rng.IntN(100); {
 		case w < 72:
 			q := h.reqs[h.rng.IntN(len(h.reqs))]
@@ -662,7 +670,10 @@ func (h *seqHist) probe(comp string, old, nw int, hostOf func(j int) []string, w
 	if len(who) == 0 || h.aborted {
 		return
 	}
-	lo, hi := old, nw
+	lo, hi := max(old, 0), max(nw, 0)
+	if lo == hi {
+		return
+	}
 	if lo > hi {
 		lo, hi = hi, lo
 	}
@@ -748,6 +759,13 @@ func (h *seqHist) storageRefresh(noChange bool) {
 			}
 		}
 	}
+	if h.applyStorageContent() {
+		h.probeStorageChanges(old)
+	}
+}
+
+// applyStorageContent serves h.c and refreshes both twins and the reference.
+func (h *seqHist) applyStorageContent() (ok bool) {
 	h.s.set(h.c)
 	before := h.s.snapshotHits()
 	ctx := context.Background()
@@ -756,23 +774,29 @@ func (h *seqHist) storageRefresh(noChange bool) {
 			h.r.Bucket("refresh_errors", 1)
 			h.r.Inconclusive(fmt.Sprintf("seq history %d: storage refresh of %s failed: %v", h.idx, e.name, err))
 			h.aborted = true
-			return
+			return false
 		}
 	}
 	paths := []string{"/rl/index", "/svc/index", "/ss/gen", "/ss/yt"}
 	for _, id := range ruleListIDs {
-		if h.c.RL[id] > 0 {
+		if h.c.RL[id] != 0 {
 			paths = append(paths, "/rl/"+id)
 		}
 	}
 	if !h.checkFetched(before, paths, 2) || !h.rebuildFresh("", true) {
-		return
+		return false
 	}
 	h.epoch++
 	h.r.Bucket("seq_storage_refreshes", 1)
 	m := fmt.Sprintf("step %d: served content := %s; Refresh() of both twins returned", len(h.log), vkit.JSON(h.c))
 	h.mutations = append(h.mutations, m)
 	h.logf("storage-refresh %s", vkit.JSON(h.c))
+	return true
+}
+
+// probeStorageChanges asks for hosts whose verdict differs between old and h.c.
+func (h *seqHist) probeStorageChanges(old content) {
+	rng := h.rng
 	for x, id := range ruleListIDs {
 		if old.RL[id] != h.c.RL[id] {
 			l := label(id)
@@ -791,10 +815,7 @@ func (h *seqHist) storageRefresh(noChange bool) {
 				for _, qt := range qts {
 					h.evalQuery("probe", q, q.customVer(), query{Host: "typed." + l + ".test", QType: qt})
 				}
-				j := h.c.RL[id]
-				if old.RL[id] > j {
-					j = old.RL[id]
-				}
+				j := max(h.c.RL[id], old.RL[id], 1)
 				h.evalQuery("probe", q, q.customVer(), query{Host: "answer.example.test", QType: dns.TypeA, Resp: true, Ans: fmt.Sprintf("a:10.7.%d.%d", x, j)})
 			}
 		}
@@ -815,8 +836,12 @@ func (h *seqHist) storageRefresh(noChange bool) {
 
 func (h *seqHist) hashRefresh() {
 	k := hashKinds[h.rng.IntN(3)]
+	h.hashRefreshTo(k, newVer(h.rng, h.c.Hash[k], 0))
+}
+
+func (h *seqHist) hashRefreshTo(k string, nv int) {
 	old := h.c.Hash[k]
-	h.c.Hash[k] = newVer(h.rng, old, 0)
+	h.c.Hash[k] = nv
 	h.s.set(h.c)
 	before := h.s.snapshotHits()
 	ctx := context.Background()
@@ -916,4 +941,138 @@ func (h *seqHist) outdatedSnapshotQuery() {
 		host = h.hot[h.rng.IntN(len(h.hot))].Host
 	}
 	h.evalQuery("outdated-snapshot", q, ver, query{Host: host, QType: dns.TypeA})
+}
+
+// zeroKinds are the refreshable list kinds that get a version which is a
+// non-empty file compiling to zero rules.
+var zeroKinds = []string{"safe-search-general", "rule-list", "safe-search-youtube", "blocked-service", "hash-list"}
+
+type askedPair struct {
+	q  *requester
+	qu query
+}
+
+// zeroRuleSandwich drives one list through v_k -> zero rules -> v_k+1 -> v_k.
+// Hosts that version v_k filters are asked (and so cached) before, and asked
+// again by the same requesters after the refresh to the zero-rule version; the
+// twin and the rebuilt-from-scratch oracles of evalQuery apply unchanged.
+func (h *seqHist) zeroRuleSandwich(kind string) {
+	rng := h.rng
+	var (
+		comp   string
+		get    func() int
+		set    func(v int)
+		hostsV func(j int) []query
+		extra  []query
+	)
+	a := func(host string, qts ...uint16) (qs []query) {
+		for _, qt := range qts {
+			qs = append(qs, query{Host: host, QType: qt})
+		}
+		return qs
+	}
+	isHash := false
+	switch kind {
+	case "rule-list":
+		x := rng.IntN(2)
+		id := ruleListIDs[x]
+		l := label(id)
+		comp = id
+		get, set = func() int { return h.c.RL[id] }, func(v int) { h.c.RL[id] = v }
+		hostsV = func(j int) []query {
+			return append(a(fmt.Sprintf("h%d.%s.test", j, l), dns.TypeA, dns.TypeAAAA), a(fmt.Sprintf("hosts%d.%s.test", j, l), dns.TypeA)...)
+		}
+		extra = append(a("rw."+l+".test", dns.TypeA), a("typed."+l+".test", dns.TypeAAAA)...)
+		extra = append(extra, query{Host: "answer.example.test", QType: dns.TypeA, Resp: true, Ans: fmt.Sprintf("a:10.7.%d.1", x)})
+	case "safe-search-general", "safe-search-youtube":
+		k := map[string]string{"safe-search-general": "gen", "safe-search-youtube": "yt"}[kind]
+		comp = k
+		if k == "gen" {
+			get, set = func() int { return h.c.SSGen }, func(v int) { h.c.SSGen = v }
+		} else {
+			get, set = func() int { return h.c.SSYT }, func(v int) { h.c.SSYT = v }
+		}
+		hostsV = func(j int) []query { return a(fmt.Sprintf("ss%d.%s.test", j, k), dns.TypeA, dns.TypeHTTPS) }
+		extra = a("ssip."+k+".test", dns.TypeA, dns.TypeAAAA)
+	case "blocked-service":
+		id := svcIDs[rng.IntN(2)]
+		l := label(id)
+		comp = id
+		get, set = func() int { return h.c.Svc[id] }, func(v int) { h.c.Svc[id] = v }
+		hostsV = func(j int) []query { return a(fmt.Sprintf("s%d.%s.test", j, l), dns.TypeA, dns.TypeAAAA) }
+		extra = a("fixed."+l+".test", dns.TypeA)
+	default:
+		k := hashKinds[rng.IntN(3)]
+		comp, isHash = k, true
+		get = func() int { return h.c.Hash[k] }
+		hostsV = func(j int) []query { return a(hashHost(k, j), dns.TypeA, dns.TypeHTTPS) }
+		extra = append(a("fixed."+k+".test", dns.TypeA, dns.TypeAAAA), a("www."+hashHost(k, 1), dns.TypeA)...)
+	}
+	who := h.enabledFor(comp)
+	if len(who) == 0 {
+		return
+	}
+	refreshTo := func(v int) bool {
+		if isHash {
+			h.hashRefreshTo(comp, v)
+			return !h.aborted
+		}
+		old := h.c.clone()
+		set(v)
+		if !h.applyStorageContent() {
+			return false
+		}
+		h.probeStorageChanges(old)
+		return !h.aborted
+	}
+	vk := get()
+	if vk < 1 {
+		vk = 1 + rng.IntN(maxV-1)
+		if !refreshTo(vk) {
+			return
+		}
+	}
+	if vk >= maxV {
+		vk = maxV - 1
+		if !refreshTo(vk) {
+			return
+		}
+	}
+	// hosts filtered under v_k, asked now so that their results are cached
+	var qs []query
+	for j := 1; j <= min(vk, 3); j++ {
+		qs = append(qs, hostsV(j)...)
+	}
+	qs = append(qs, extra...)
+	var asked []askedPair
+	for _, qu := range qs {
+		for n := 0; n < 2; n++ {
+			q := who[rng.IntN(len(who))]
+			asked = append(asked, askedPair{q, qu})
+			h.evalQuery("before-zero-rule-version", q, q.customVer(), qu)
+		}
+	}
+	if h.aborted || !refreshTo(zeroRules) {
+		return
+	}
+	h.r.Bucket("seq_refreshes_to_zero_rule_version_"+kind, 1)
+	for _, p := range asked {
+		if h.aborted {
+			return
+		}
+		h.evalQuery("after-zero-rule-version", p.q, p.q.customVer(), p.qu)
+		h.r.Bucket("seq_requery_of_cached_host_after_zero_rule_refresh_"+kind, 1)
+	}
+	if !refreshTo(vk + 1) {
+		return
+	}
+	for _, p := range asked[:min(len(asked), 6)] {
+		h.evalQuery("probe", p.q, p.q.customVer(), p.qu)
+	}
+	if !refreshTo(vk) {
+		return
+	}
+	for _, p := range asked[:min(len(asked), 6)] {
+		h.evalQuery("probe", p.q, p.q.customVer(), p.qu)
+	}
 }
